@@ -23,6 +23,8 @@ type W struct {
 	pat     byte
 	// opFacts are attached to a violation raised by a panic (library crash) during the current operation.
 	opFacts map[string]string
+	// worldFacts are attached to every violation of this world (facts about the workload as a whole).
+	worldFacts map[string]string
 	// cmp is the comparison digest of flavour-independent results (C18 cross-build differential).
 	cmp    uint64
 	cmpSet bool
@@ -91,6 +93,16 @@ func (w *W) Failf(kind string, facts map[string]string, format string, a ...inte
 		for _, k := range sortedFactKeys(w.opFacts) {
 			if _, ok := facts[k]; !ok {
 				facts[k] = w.opFacts[k]
+			}
+		}
+	}
+	if w.worldFacts != nil {
+		if facts == nil {
+			facts = map[string]string{}
+		}
+		for _, k := range sortedFactKeys(w.worldFacts) {
+			if _, ok := facts[k]; !ok {
+				facts[k] = w.worldFacts[k]
 			}
 		}
 	}
